@@ -255,12 +255,15 @@ def main():
     def exp_extend(pre, l, I, e):
         if pre is None:
             return "panicked", (lambda g, l: g == [DEFUSED]), {"panic": DEFUSED}
-        n = l.decisions.get("v#len")
+        n = l.decisions.get("v#len") or 0
         add = [("E", "v[%d]" % i) for i in range(n)]
+        if isinstance(pre, tuple):
+            # the accumulator was not inspected on this path (nothing to add): it must come back untouched
+            return "returned", (lambda g, l: n == 0 and acc_state(g, l) == pre), {"result": []}
         post = pre + add
         return "returned", (lambda g, l: acc_state(g, l) == post), {"result": [err_json(x) for x in post]}
     step_entry("entry_extend", ["acc", "v"],
-               lambda pre, l: None if pre is None else "(extend %s (v %s))" % (acc_sx(pre), " ".join(err_sx(("E", "v[%d]" % i)) for i in range(l.decisions.get("v#len", 0)))),
+               lambda pre, l: None if (pre is None or isinstance(pre, tuple)) else "(extend %s (v %s))" % (acc_sx(pre), " ".join(err_sx(("E", "v[%d]" % i)) for i in range(l.decisions.get("v#len", 0)))),
                exp_extend)
 
     # finish / finish_with / checkpoint
